@@ -8,6 +8,7 @@ from vp import asm, gen, monitor, refvm, workload
 from vp.core import h
 
 ORIG_LOADS = _pickle.loads
+ORIG_UNPICKLER = _pickle.Unpickler
 
 CONFIG = dict(
     level="exploration",
@@ -17,9 +18,9 @@ CONFIG = dict(
           "every injection helper and flag combination (insert_python first/last x keep/replace with "
           "callee eval / exec / vp_sink.hit and 0-3 constant args incl. lists and dicts; append_python "
           "pop/no-pop; insert_magic_int at several indexes; insert_function_call_on_unpickled_object "
-          "plain/compiled with constant args), also as histories in which a helper call that is refused (unsupported "
+          "plain/compiled with constant args; bases incl. protocol 4/5 pickles split over several FRAMEs), also as histories in which a helper call that is refused (unsupported "
           "argument, definition that does not compile) precedes the valid injection on the same object.  The rewritten bytes are loaded by the original C "
-          "unpickler (and, for unframed bases and modes that do not depend on exec scoping, by the "
+          "unpickler from bytes and from a read-only stream (and, for modes that do not depend on exec scoping, by the "
           "pure-Python one) while the sink log and pickle.find_class audit events are recorded; the "
           "reference VM gives the stack depth at STOP.  A case is one distinct (base bytes, mode); "
           "non-trivial = the base has at least one effect, memo entry or container."),
@@ -90,6 +91,12 @@ def bases(ctx):
                {"x": vp_sink.KReduceState(4)}, [vp_sink.KNewArgs(1, "two"), vp_sink.KNewArgsEx(1, kw=2)],
                vp_sink.KList([1]), vp_sink.KDict({"q": 1}), [vp_sink.KSlots(1, 2)], (1, "a", b"b", 2.5, None, True),
                [{1, 2}, frozenset({3})], "just text", 12345678901234567890]
+    # protocol >= 4 pickles that the pickler splits over several FRAMEs (and a large string written outside frames)
+    meta = {("key_%05d" % i) * 4: i for i in range(4000)}
+    for proto in (4, 5):
+        out.append((f"multiframe-p{proto}", pickle.dumps({"meta": meta, "k": [vp_sink.KReduce(1)]}, proto)))
+        out.append((f"multiframe-large-str-p{proto}",
+                    pickle.dumps([vp_sink.KReduce(1), meta, "x" * 70000, vp_sink.KReduce(2), sorted(meta)], proto)))
     nval = {"quick": 30, "thorough": 700}[ctx.tier]
     vals = special + [v for v in workload.values(ctx.seed, nval)][len(gen.directed_values()):]
     for v in vals:
@@ -140,14 +147,29 @@ def gate(data, rewritten=False):
     return True
 
 
+class _ReadOnly:
+    """read/readline only (no peek, no readinto): the C unpickler prefetches whole frames from it"""
+
+    def __init__(self, data):
+        self._b = io.BytesIO(data)
+
+    def read(self, n=-1):
+        return self._b.read(n)
+
+    def readline(self):
+        return self._b.readline()
+
+
 def real_load(data, python=False):
     """Load with the original unpickler; returns (outcome, sink log, find_class sequence)."""
     import vp_sink
     del vp_sink.LOG[:]
     with monitor.Recording() as rec:
         try:
-            if python:
+            if python in (True, "py"):
                 val = pickle._Unpickler(io.BytesIO(data)).load()
+            elif python == "c-stream":
+                val = ORIG_UNPICKLER(_ReadOnly(data)).load()     # how torch.load and pickle.load(file) read
             else:
                 val = ORIG_LOADS(data)
             out = ("ret", val)
@@ -273,13 +295,13 @@ def check(ctx, f, analysis, label, base, mode, opt):
     if mode == "insert_magic_int" and not any(n == "INT" and a == opt["magic"] for n, a in ops):
         agg.violation("magic-int-missing", "marker integer not present in the rewritten pickle", w)
     # load with the original C unpickler (and the Python one where applicable)
-    loaders = [False]
-    if mode != "insert_fn" and "FRAME" not in names:
-        loaders.append(True)
+    loaders = ["c", "c-stream"]
+    if mode != "insert_fn":
+        loaders.append("py")
     for python in loaders:
         rout, rlog, rfinds = real_load(out, python=python)
         agg.count("rewritten_loads")
-        tag = f"{mode}:{'py' if python else 'c'}"
+        tag = f"{mode}:{python}"
         if rout[0] != "ret":
             agg.violation(f"rewritten-load-raises:{tag}",
                           f"loading the rewritten pickle raises {type(rout[1]).__name__}: {str(rout[1])[:120]}", w)
